@@ -14,7 +14,8 @@
    is run for every event; dk j = true: AFTER DEACTIVATE of the document only, it is run for the
    events with a deactivation row).  A third flag read from the source: does an event decoded from
    the PLog still tell that a row deactivates its record (c01_decode_restores_active_modified;
-   it does not: finding C01-F3 - the re-apply then does not trigger AFTER DEACTIVATE projectors).
+   it does since 35e511a40; before, the re-apply did not trigger AFTER DEACTIVATE projectors:
+   finding C01-F3, repaired).
    All theorems hold for every trust level (also values the code does not know), every number of
    sync projectors, every flush order, every history and every fault plan.
 
@@ -40,13 +41,11 @@ Proof. reflexivity. Qed.
 Lemma flush_stops_at_first_error : c01_sync_flush_stops_at_error = true.
 Proof. reflexivity. Qed.
 
-(* what the statements about projections cover for the code as it is: the projectors the re-apply
-   triggers exactly as the command did (`good`): every projector not subscribed AFTER DEACTIVATE
-   only - and all of them as soon as the decoder restores the flag *)
-Definition covered (dk : N -> bool) : N -> Prop := good c01_decode_restores_active_modified dk.
-
-Lemma on_execute_projectors_covered : forall dk j, dk j = false -> covered dk j.
-Proof. intros dk j H. right. exact H. Qed.
+(* pkg/istructsmem types-dynobuf.go: storeRowSysFields writes the mask bit sfm_IsActiveModified,
+   loadRowSysFields restores rowType.isActiveModified from it (finding C01-F3 / C02-F3, repaired in
+   35e511a40): a re-applied event triggers the projectors the command triggered *)
+Lemma decode_restores_activation_change : c01_decode_restores_active_modified = true.
+Proof. reflexivity. Qed.
 
 (* istructsmem/impl.go: the re-apply path of recovery (IEventReapplier) overwrites, it never uses
    a conditional insert *)
@@ -62,24 +61,41 @@ Qed.
    workspace WLog offsets 1..m without a gap holding exactly that workspace's PLog events in
    order, records = fold of the PLog, one row per event in the view of every one of the np sync
    projectors (`consistent np`). *)
-Theorem recovery_restores_consistency_partial :
+Theorem recovery_restores_consistency :
   forall tl np dk ords steps st outs,
   ords_ok np dk ords ->
   run (code_conf tl) ords 1 steps state0 = (st, outs) ->
   forall ord, ord_ok np dk ord ->
   exists s' l' p, recover (code_conf tl) ord [] (sto st) [] = (s', l', Some p)
-    /\ plog s' = plog (sto st) /\ consistent np dk (covered dk) s'.
+    /\ plog s' = plog (sto st) /\ consistent np dk all_projectors s'.
 Proof.
   exact (fun tl np dk ords steps st outs Ho =>
-    recovery_restores_consistency_proved (code_conf tl) ords np dk steps st outs
-      flush_stops_at_first_error Ho reapply_is_unconditional).
+    recovery_restores_consistency_all_proved (code_conf tl) ords np dk steps st outs
+      flush_stops_at_first_error decode_restores_activation_change Ho reapply_is_unconditional).
 Qed.
 
-(* The full statement - `consistent np dk all_projectors s'`, every projection - is REFUTED for an
-   AFTER DEACTIVATE projector (known finding C01-F3): one such projector; a deactivation whose view
-   write fails before its effect is answered 5xx; the recovery re-applies the event from the PLog,
-   where IsDeactivated() is no longer true, does not trigger the projector and succeeds: the
-   command is in PLog, WLog and records and for ever missing from the projection. *)
+(* Whatever the decoder does (flag `sees`), the statement holds for the projectors the re-apply
+   triggers as the command did (`good sees dk`: all of them if sees, otherwise those not subscribed
+   AFTER DEACTIVATE only) ... *)
+Theorem recovery_restores_consistency_partial :
+  forall sees tl np dk ords steps st outs,
+  let k := mkConf c01_putplog_returns_err c01_sync_flush_stops_at_error sees tl in
+  ords_ok np dk ords ->
+  run k ords 1 steps state0 = (st, outs) ->
+  forall ord, ord_ok np dk ord ->
+  exists s' l' p, recover k ord [] (sto st) [] = (s', l', Some p)
+    /\ plog s' = plog (sto st) /\ consistent np dk (good sees dk) s'.
+Proof.
+  exact (fun sees tl np dk ords steps st outs Ho =>
+    recovery_restores_consistency_proved (mkConf c01_putplog_returns_err c01_sync_flush_stops_at_error sees tl)
+      ords np dk steps st outs flush_stops_at_first_error Ho reapply_is_unconditional).
+Qed.
+
+(* ... and for a decoder that does not restore the flag (the code before 35e511a40, finding C01-F3)
+   the full statement is REFUTED for an AFTER DEACTIVATE projector: a deactivation whose view write
+   fails before its effect is answered 5xx; the recovery re-applies the event from the PLog, where
+   IsDeactivated() is no longer true, does not trigger the projector and succeeds: the command is
+   in PLog, WLog and records and for ever missing from the projection. *)
 Theorem recovery_restores_consistency_refuted :
   exists steps st outs,
   let k := mkConf true true false 0 in
@@ -100,13 +116,14 @@ Qed.
 
 (* 1'. Whenever the processor holds partition state (that is: unless the last command failed at a
    write step and the partition awaits recovery) the stores are consistent already. *)
-Theorem serving_state_consistent_partial :
+Theorem serving_state_consistent :
   forall tl np dk ords steps st outs,
   ords_ok np dk ords ->
-  run (code_conf tl) ords 1 steps state0 = (st, outs) -> mem st <> None -> consistent np dk (covered dk) (sto st).
+  run (code_conf tl) ords 1 steps state0 = (st, outs) -> mem st <> None -> consistent np dk all_projectors (sto st).
 Proof.
   exact (fun tl np dk ords steps st outs =>
-    serving_state_consistent_proved (code_conf tl) ords np dk steps st outs flush_stops_at_first_error).
+    serving_state_consistent_all_proved (code_conf tl) ords np dk steps st outs
+      flush_stops_at_first_error decode_restores_activation_change).
 Qed.
 
 (* 1''. Full statement for a sync actualizer that flushes every projector and reports only the
@@ -253,11 +270,11 @@ Theorem clean_command_succeeds :
   ords_ok np dk ords ->
   insert_only c = true ->
   run (code_conf tl) ords 1 (steps ++ [SCmd c []]) state0 = (st, outs) ->
-  (exists w ids, option_map o_reply (last_opt outs) = Some (ROk w ids)) /\ consistent np dk (covered dk) (sto st).
+  (exists w ids, option_map o_reply (last_opt outs) = Some (ROk w ids)) /\ consistent np dk all_projectors (sto st).
 Proof.
   exact (fun tl np dk ords steps c st outs Ho =>
-    clean_command_succeeds_proved (code_conf tl) ords np dk steps c st outs
-      flush_stops_at_first_error Ho reapply_is_unconditional).
+    clean_command_succeeds_all_proved (code_conf tl) ords np dk steps c st outs
+      flush_stops_at_first_error decode_restores_activation_change Ho reapply_is_unconditional).
 Qed.
 
 (* 6. The boolean oracle evaluated on observed traces is sound for `consistent`: a trace the
@@ -383,9 +400,10 @@ Example oracle_nonvacuous :
   /\ map fst (t_proj (ex_trace false)) = [0; 1; 2].
 Proof. vm_compute. repeat split. Qed.
 
+Print Assumptions recovery_restores_consistency.
 Print Assumptions recovery_restores_consistency_partial.
 Print Assumptions recovery_restores_consistency_refuted.
-Print Assumptions serving_state_consistent_partial.
+Print Assumptions serving_state_consistent.
 Print Assumptions consistency_refuted_without_early_return.
 Print Assumptions log_is_the_written_commands.
 Print Assumptions command_in_log_iff_written.
